@@ -16,7 +16,7 @@ from ..engine import pattern as P
 from ..engine.facts import dotted, const, src, walk_func, enclosing_stmt, ancestors
 from . import skeletons as sk
 from . import c19  # idents-fields (scan state, parameter binding) is registered for C04 there
-from .common import calls, stmt_nodes, contains
+from .common import calls, stmt_nodes, contains, pn, access_paths
 from .common import raise_names as common_raise_names
 
 
@@ -226,7 +226,8 @@ def strict_emission(ctx):
     for node in walk_func(wv):
         if isinstance(node, ast.BinOp) and isinstance(node.op, ast.Mod) and isinstance(node.left, ast.Constant) and isinstance(node.left.value, str) and ("context.get(" in node.left.value or "context[" in node.left.value or "NameError" in node.left.value or "_import_ns.get" in node.left.value or " is UNDEFINED" in node.left.value):
             args = node.right.elts if isinstance(node.right, ast.Tuple) else [node.right]
-            ok = all(src(a) == "ident" for a in args)
+            loopvars = {a_.target.id for a_ in ancestors(node) if isinstance(a_, ast.For) and isinstance(a_.target, ast.Name)}
+            ok = all(isinstance(a, ast.Name) for a in args) and len({a.id for a in args}) == 1 and args[0].id in loopvars
             ctx.check(ok, "same-ident:%s" % node.left.value[:24], db.where(node), "look-up `%s` is formatted with %s, not the identifier throughout" % (node.left.value, [src(a) for a in args]), "ident used for target, key and message")
     # writer bound last; loop stack only when used
     last = [e for e in _all_lines(S.model.method_traces("write_variable_declares")[0].events)][-1]
